@@ -9,8 +9,9 @@ float64 and with the velocity array actually stored in the simulator:
     |dt(p) - p dt(1)| <= 8 eps_t p dt(1)                           dt-not-linear-in-prefactor
     dt max_x(sum_a |u_a|) / dx <= CFL (1 + 8 eps_t)                cfl-limit-exceeded
     nu dt / dx^2 <= 0.9/(2d) (1 + 8 eps_t)                         diffusion-limit-exceeded
-(8 eps_t covers the worst-case rounding of the documented formula, <= 3 eps_t: the function works in
-the precision of the simulator).  The regime of every case (advection- or diffusion-limited, from an
+(8 eps_t is an a-priori bound, not a statistical floor: the worst-case rounding of the documented formula
+evaluated in the simulator's precision is 3 eps_t for the CFL limit and 3.5 eps_t for the diffusion limit;
+measured <= 1.5 eps_t resp. 2 eps_t).  The regime of every case (advection- or diffusion-limited, from an
 independent float64 evaluation of the two limits) is counted; REQUIRE makes the run inconclusive if
 the diffusion-limited regime with nu/dx^2 >= 1 was not reached.
 
@@ -20,10 +21,12 @@ buffer pre-loaded with garbage) and one ``time_step`` of the passive-transport s
 velocity (dt from ``compute_stable_timestep``; if that dt breaks the diffusion limit the premise of
 the property fails, the excess is reported under diffusion-limit-exceeded and the step is taken with
 the largest admissible dt instead) must satisfy per interior cell
-    min(self, 2d neighbours) - 4 eps_t max|f| <= new <= max(self, 2d neighbours) + 4 eps_t max|f|
+    min(self, 2d neighbours) - 8 eps_t max|f| <= new <= max(self, 2d neighbours) + 8 eps_t max|f|
 (diffusion-new-extremum) and leave the boundary ring unchanged by value (diffusion-ring-changed;
--0.0 == +0.0).  Fields: noise, spikes, checkerboard, flat (constant + few-ulp ripple: stresses the
-slack), constant.
+-0.0 == +0.0).  The slack is 8 eps_t instead of the 4 eps_t of DESIGN §4: the a-priori rounding bound of
+f + alpha (sum - 2d f) in working precision is ~6 eps_t max|f| in 3-D and 0.62 eps_t max|f| was measured
+on flat fields (seed 1 thorough), which would leave only 6x headroom with 4 eps_t.  Fields: noise,
+spikes, checkerboard, flat (constant + few-ulp ripple: stresses the slack), constant.
 
 Known genuine defect on the pinned tree (F2): the diffusion limit is ``0.9 dx^2/(2d)/nu + tol`` with
 tol = 10 eps, so nu dt/dx^2 = 0.225 + 10 eps nu/dx^2 when the step is diffusion-limited, e.g.
@@ -31,7 +34,19 @@ float32, dx = 1/256, nu = 0.5: 0.264 > 0.25 -> mechanism ``diffusion-limit-excee
 /verif/fixes/F2.diff applied.
 
 Self-test (tools/mut.sh, quick tier, seed 0; patches = F2.diff + one change so that F2 does not mask):
-MUTATION_TABLE
+  F2.diff alone                                                         -> HELD (pinned tree: only diffusion-limit-exceeded, 36 witnesses)
+  cfl ignored (dx / (amax + tol))                                       -> cfl-limit-exceeded
+  abs dropped (np.sum(velocity) instead of np.sum(np.fabs(velocity)))   -> cfl-limit-exceeded, dt-not-finite-positive
+  only the x component (np.fabs(velocity)[0])                           -> cfl-limit-exceeded
+  np.amax -> np.mean                                                    -> cfl-limit-exceeded
+  min(...) -> max(...)                                                  -> cfl-limit-exceeded, diffusion-limit-exceeded
+  0.9 -> 1.1                                                            -> diffusion-limit-exceeded
+  grid_dim -> 1 in the diffusion limit                                  -> diffusion-limit-exceeded
+  prefactor applied twice (Navier-Stokes 3-D class / passive class)     -> dt-not-linear-in-prefactor
+  passive simulator steps with nu dt/dx instead of nu dt/dx^2           -> diffusion-new-extremum (objects with dx > 1.3)
+  2-D diffusion stencil: centre weight -3 instead of -4                 -> diffusion-new-extremum
+  3-D diffusion flux: boundary reset of the flux dropped                -> diffusion-ring-changed
+  Unchanged tree + F2.diff: HELD for seeds 0..5 quick, 0..1 thorough.
 """
 import numpy as np
 
@@ -55,8 +70,8 @@ RULE = (
 )
 ASSUMPTIONS = [
     "the inequalities are evaluated in float64 from the returned dt, the simulator's own dx attribute and the stored velocity array",
-    "8 eps_t relative slack on both limits and on linearity (worst-case rounding of the documented formula is 3 eps_t)",
-    "maximum-principle slack 4 eps_t max|f| (measured excess on flat fields <= 0.1 of it)",
+    "8 eps_t relative slack on both limits and on linearity (a-priori bound: worst-case rounding of the documented formula is 3.5 eps_t)",
+    "maximum-principle slack 8 eps_t max|f| (a-priori rounding bound ~6 eps_t max|f| in 3-D; measured excess on flat fields <= 0.1 of the slack)",
     "nu > 0 only (a simulator with nu = 0 has no diffusion limit)",
 ]
 REQUIRE = {
@@ -212,7 +227,7 @@ def _check_maxprinciple(rec, old, new, eps, mech_prefix, msg, witness):
             lo = np.minimum(lo, s)
             hi = np.maximum(hi, s)
     fmax = util.maxabs(o)
-    slack = 4.0 * eps * fmax + 1e-300
+    slack = 8.0 * eps * fmax + 1e-300
     if not np.all(np.isfinite(nw)):
         rec.violation(mech_prefix + "-not-finite", msg, witness)
         return 0
